@@ -869,6 +869,9 @@ func (in *Instance) Do(rq Req) (resp Resp) {
 		resp.Panic = "harness: bad request: " + err.Error()
 		return
 	}
+	if r.Body == nil {
+		r.Body = http.NoBody // what net/http's server gives a handler
+	}
 	if ctype != "" {
 		r.Header.Set("Content-Type", ctype)
 	}
@@ -958,6 +961,9 @@ func (in *Instance) Serve(jar *Jar, browser, method, path string, form map[strin
 	r, err := http.NewRequest(method, "http://site.test"+path, rd)
 	if err != nil {
 		return 0, "", "", nil, err.Error()
+	}
+	if r.Body == nil {
+		r.Body = http.NoBody
 	}
 	if rd != nil {
 		r.Header.Set("Content-Type", "application/x-www-form-urlencoded")
